@@ -185,5 +185,11 @@ _ADDED = {
 }
 for _k, _v in _ADDED.items():
     CHECKS[_k]['text'] = CHECKS[_k]['text'] + _v
+for _k in ('C01', 'C04', 'C05', 'C06', 'C07', 'C09', 'C10'):
+    CHECKS[_k]['text'] = CHECKS[_k]['text'] + (' Shared clause FRONT-END: Bycycle.fit, entered in an arbitrary earlier state, is exactly one unconditional compute_features call with the stored '
+                                               'settings, so the property carries over to Bycycle.df_features (no refit shortcut or cached table).')
+for _k in ('C01', 'C02', 'C03', 'C04', 'C05', 'C06', 'C07', 'C08', 'C09', 'C10', 'C16', 'C17', 'C18', 'C20'):
+    CHECKS[_k]['text'] = CHECKS[_k]['text'] + ' Shared clause NO-HISTORY: no function reachable from the entry points writes module-level state (caches, edited constants).'
+CHECKS['C03']['text'] = CHECKS['C03']['text'] + ' SAMPLE-DIFF: the midpoint search forms no difference of two raw sample values (wrap-around for unsigned integer recordings).'
 for _k in CHECKS:
     CHECKS[_k]['text'] = CHECKS[_k]['text'] + ' Every path the rules evaluate must also be free of exactly modelled Python errors (NO-PYERROR); where the anchored entry points document a default, the signature default equals it (DOC-DEFAULT).'
